@@ -6,24 +6,24 @@ sys.path.insert(0, os.path.join(ROOT, "lib"))
 import registry
 
 TECH = {
-    "C01": "Kani contracts on every chunk decoder and reader primitive (field-by-field vs. the file-format layout) + bounded-exec round trip",
-    "C02": "Verus functional contract on the real raw-cel rasteriser (unbounded) + Kani contracts (mul_un8, cel table) + bounded-exec frames vs composition spec",
-    "C03": "Kani function contracts: leaves vs Aseprite macros over full domains, mode wrappers modulo uninterpreted callees; f64 kernels bounded-exec",
-    "C04": "Verus (compute_parents / from_vec) + Kani totality contracts per decoder + fault enumeration in an isolated child process",
-    "C05": "Verus renderer preconditions (assume/guarantee) + fault enumeration: every loadable mutant through every accessor",
-    "C06": "Kani contracts on pixel conversions and cel decode + Verus rasteriser contract + bounded-exec cel images",
-    "C07": "bounded-exec over encoding-choice vectors; Kani contracts for ignorable chunk codes and trailing bytes",
-    "C08": "Verus contracts on tile lookup / slicing / rasteriser + Kani tile word decode + bounded-exec view agreement",
-    "C09": "Verus proof of compute_parents on the extracted real text (unbounded) + exhaustive execution of all forests <= 6/8 layers",
-    "C10": "Verus contracts on the real ParseInfo attachment state machine (add_user_data etc., unbounded) + exhaustive bounded exploration of chunk sequences for the parse_frame glue; Kani contract on the user-data decoder",
-    "C11": "Kani contracts on palette decoders and 6-bit scaling + bounded-exec precedence / validation",
-    "C13": "Kani contracts on reader primitives (error iff short) + every cut offset executed",
-    "C14": "Kani contract on error mapping + bounded-exec scripted readers and injected I/O errors",
-    "C15": "Kani contracts on every refusing branch over its whole code domain + bounded-exec refusals at every position",
-    "C16": "rustc trait solver (Send+Sync) + overflow obligations of the Verus/Kani contracts + determinism/thread sanity runs",
-    "C17": "Kani: laws proved per mode from the contracts of normal/merge (callees uninterpreted) + leaf range contracts",
-    "C18": "bounded-exec of the utilities against their documented behaviour",
-    "C19": "Verus contracts on the three cel constructors and the cel accessors (real text) + bounded-exec comparison of images / user data",
+    "C01": "Verus contracts on the real text of every chunk decoder, the chunk framing (Chunk::read / read_all), the file header and the public accessors (unbounded payloads, field-by-field vs the file-format layout); Kani contracts on reader primitives and fixed-shape decoders; bounded-exec round trip",
+    "C02": "Verus functional contracts on the real frame_image / write_cel / both rasterisers (frame = fold of the cels in layer order over transparent black, hidden layers skipped; unbounded) and on CelsData::add_cel; Kani contract for mul_un8; bounded-exec frames vs an independent composition spec",
+    "C03": "Kani function contracts: leaves vs Aseprite's macros over full domains, mode wrappers modulo uninterpreted callees; f64 HSL kernels bounded-exec",
+    "C04": "Verus contracts (Ok iff well-formed, no overflow / index error / panic site reachable) on the real decoders, chunk framing, header, frame dispatch and validation stage; Kani totality contracts per fixed shape; fault enumeration in an isolated child process",
+    "C05": "Verus assume/guarantee chain on the real text: the validation stage (ParseInfo::validate, CelsData::validate, RawCel::validate, LayersData::validate, TilesetsById::validate) delivers what the renderer (frame_image, write_cel, layer_image, rasterisers, tile lookups) requires, whose panic / expect sites are proved unreachable; fault enumeration through every accessor as the end-to-end stand-in",
+    "C06": "Verus contracts on the per-pixel conversion rules, RawPixels::validate, the cel decoders and the raw rasteriser; Kani contracts on cel payload shapes; bounded-exec cel images",
+    "C07": "Verus contracts for the encoding-independent facts (CelsData::add_cel touches exactly one slot; old/new chunk count in parse_frame); Kani contracts for ignorable chunk codes and trailing bytes; bounded-exec over encoding-choice vectors",
+    "C08": "Verus functional contract on the real tilemap rasteriser (every canvas pixel written exactly once with the right tileset pixel), tile lookup / slicing / offsets and the tileset decoder; Kani tile word decode; bounded-exec view agreement",
+    "C09": "Verus proofs on the real compute_parents / from_vec / Layer::is_visible / Layer::parent / frame_image (visibility gate) (unbounded) + exhaustive execution of all forests <= 6/8 layers",
+    "C10": "Verus contracts on the real ParseInfo attachment state machine and parse_frame (fold over the chunk sequence, unbounded) + exhaustive bounded exploration of chunk sequences; Verus/Kani contract on the user-data decoder",
+    "C11": "Verus contracts on the real new and legacy (0x0004 / 0x0011) palette decoders, 6-bit scaling, validate_indexed_pixels and RawPixels::validate (unbounded); Kani shapes; bounded-exec precedence / validation",
+    "C13": "Verus contracts: reader-contract based 'Ok iff every declared byte is present' for chunk framing, decoders and header; Kani contracts on the reader primitives (error iff short); every cut offset executed",
+    "C14": "Kani: AseReader primitives over a scripted reader for every split into read() sizes and every Interrupted placement, hard error anywhere; Kani contract on error mapping; bounded-exec scripted readers on whole files",
+    "C15": "Verus / Kani contracts on every refusing branch over its whole code domain (pixel ratio and colour depth in read_aseprite, chunk type, layer type, blend mode, cel type, animation direction, colour profile, bits per tile, tileset without pixels) + bounded-exec refusals at every position",
+    "C16": "rustc trait solver (Send+Sync) + overflow-freedom obligations of the Verus/Kani contracts (no result depends on wrapping) + determinism / thread sanity runs incl. the palette mapper",
+    "C17": "Kani: laws proved per mode from the contracts of normal/merge (callees uninterpreted) + leaf range contracts; Verus: both rasterisers hand pixels and the opacity product to the blend function unchanged",
+    "C18": "Verus contracts on the real extrude_border, PaletteMapper::new and PaletteMapper::lookup (unbounded; iterator chain / map iteration as trusted shims) + bounded-exec of all utilities incl. to_indexed_image",
+    "C19": "Verus contracts on the three cel constructors, the cel accessors and layer_image / write_cel / frame_image (real text) + bounded-exec comparison of images / user data",
 }
 LEVEL_TEXT = {
     "proof": "Contract-based deductive verification of the real code: each listed obligation is a pre/postcondition (or loop invariant) on a function of /repo discharged for all inputs of its stated domain by Verus (Z3) on mechanically extracted text or by Kani (CBMC) on the compiled crate; callers are checked against callee contracts (stubs / uninterpreted functions). Obligations labelled bounded-sym (fixed payload shape, symbolic contents) or bounded-exec (executed family) are listed with their bounds in the evidence and are NOT counted as proved.",
